@@ -300,4 +300,130 @@ theorem subtree_goal {w : World} (E : Env w) (hT : legalThreshold w.T = true) {D
       obtain ⟨v, hv⟩ := (mem_keys_iff _ id).1 hid
       exact mem_keys_of_mem (List.mem_flatMap.2 ⟨c, hc, hv⟩)
 
+/-- THE TREE OF A STANDALONE MAP: every slab of `(Cont.map m).treeSlabs` meets the goal.
+    Hypotheses: the map invariant; the slab IDs of the tree are pairwise different (`HeapOk.nodup`)
+    and 64 bits wide (`HeapOk.addr` / `HeapOk.below` with a 64-bit address and counter); 64-bit
+    type info, count, seed, digests; good values and valid keys. -/
+theorem map_tree_goal {w : World} (E : Env w) (hT : legalThreshold w.T = true) {D : DigestFn 4}
+    (hD : ∀ p, ∀ h ∈ D.dg p, h < 2 ^ 64) (m : OMap 3) (hinv : MapInv w.T D m)
+    (hnd : (Cont.map m).treeIds.Nodup)
+    (hids : ∀ id ∈ (Cont.map m).treeIds, id.addr < 2 ^ 64 ∧ id.idx < 2 ^ 64)
+    (hty : m.ty < 2 ^ 64) (hcnt : m.count < 2 ^ 64) (hseed : m.seed < 2 ^ 64)
+    (hval : ∀ v ∈ m.toList.map (·.2), Good w v)
+    (hkey : ∀ kv ∈ m.toList, validElem ⟨kv.1.size, .val kv.1.pay⟩) :
+    ∀ p ∈ (Cont.map m).treeSlabs, SlabGoal w p.1 p.2 := by
+  have hkv : ∀ p ∈ MTree.toList m.d m.root, KVGood w p :=
+    fun p hp => ⟨hval p.2 (List.mem_map.2 ⟨p, hp, rfl⟩), hkey p hp⟩
+  rw [Cont.treeIds_map] at hnd hids
+  have hnx : ∀ s ∈ MTree.leaves m.d m.root, validNext s.next := by
+    apply E2EM.mchain_nexts _ hinv.chain
+    intro s hs
+    exact hids _ (E2EM.mleaf_id_mem m.d m.root s hs)
+  have hinl : treeInl m.d m.root = false := by
+    have := hinv.standalone
+    obtain ⟨d, root, ty, cnt, seed⟩ := m
+    rw [← isInlined_eq d root ty cnt seed]; exact this
+  have htree := hinv.tree
+  have hchain := hinv.chain
+  have hxo : E2EM.XOk (some (m.ty, m.count, m.seed)) := ⟨hty, hcnt, hseed⟩
+  intro p hp
+  simp only [Cont.treeSlabs] at hp
+  obtain ⟨q, hq, rfl⟩ := List.mem_map.1 hp
+  simp only
+  have hrid : m.rootID = (MTree.hdr m.d m.root).id := rfl
+  rw [mslabs_eq] at hq hnd
+  rw [keys_cons'] at hnd
+  have hnotin := (List.nodup_cons.1 hnd).1
+  rcases List.mem_cons.1 hq with rfl | hsub
+  · -- the root slab
+    rw [if_pos hrid.symm]
+    simp only
+    obtain ⟨d, root, ty, cnt, seed⟩ := m
+    cases d with
+    | zero =>
+      have key : ∀ s : MDataSlab 3, MTreeInv w.T D 0 true s → treeInl 0 s = false →
+          MLeafChain (MTree.leaves 0 s) → (∀ p ∈ MTree.toList 0 s, KVGood w p) →
+          (∀ id ∈ AList.keys (MTree.slabs 0 s), id.addr < 2 ^ 64 ∧ id.idx < 2 ^ 64) →
+          (∀ l ∈ MTree.leaves 0 s, validNext l.next) →
+          SlabGoal w (MTree.hdr 0 s).id (WSlab.map (ment 0 s) (some (ty, cnt, seed))) := by
+        intro s h1 h2 h3 h4 h5 h6
+        exact data_goal E hT hD s true ((mtreeInv_zero_iff w.T D true s).mp h1) h2 h4 h5
+          (h6 s (by rw [E2EM.mleaves_zero]; simp)) (fun _ => h3) _ rfl hxo
+      exact key root htree hinl hchain hkv hids hnx
+    | succ d =>
+      have key : ∀ mm : MMetaSlab (MTree 3 d), MTreeInv w.T D (d + 1) true mm →
+          (∀ id ∈ AList.keys (MTree.slabs (d + 1) mm), id.addr < 2 ^ 64 ∧ id.idx < 2 ^ 64) →
+          SlabGoal w (MTree.hdr (d + 1) mm).id (WSlab.map (ment (d + 1) mm) (some (ty, cnt, seed))) := by
+        intro mm h1 h5
+        exact index_goal hT hD d true mm h1 h5 _ hxo
+      exact key root htree hids
+  · -- below the root slab: no extra data
+    have hne : ¬ q.1 = m.rootID := by
+      intro he
+      rw [hrid] at he
+      have hmem := mem_keys_of_mem hsub
+      rw [he] at hmem
+      exact hnotin hmem
+    rw [if_neg hne]
+    obtain ⟨d, root, ty, cnt, seed⟩ := m
+    cases d with
+    | zero =>
+      have key : ∀ s : MDataSlab 3, MTreeInv w.T D 0 true s → (∀ p ∈ MTree.toList 0 s, KVGood w p) →
+          q ∈ msub 0 s → SlabGoal w q.1 (WSlab.map q.2 none) := by
+        intro s h1 h4 h7
+        exact groups_goal E hD s ((mtreeInv_zero_iff w.T D true s).mp h1).elems_inv h4 q h7
+      exact key root htree hkv hsub
+    | succ d =>
+      have key : ∀ mm : MMetaSlab (MTree 3 d), MTreeInv w.T D (d + 1) true mm →
+          (∀ p ∈ MTree.toList (d + 1) mm, KVGood w p) →
+          (∀ id ∈ AList.keys (MTree.slabs (d + 1) mm), id.addr < 2 ^ 64 ∧ id.idx < 2 ^ 64) →
+          (∀ l ∈ MTree.leaves (d + 1) mm, validNext l.next) →
+          q ∈ msub (d + 1) mm → SlabGoal w q.1 (WSlab.map q.2 none) := by
+        intro mm h1 h4 h5 h6 h7
+        obtain ⟨hm, _⟩ := (mtreeInv_succ_iff w.T D d true mm).mp h1
+        rw [msub_succ] at h7
+        obtain ⟨c, hc, hqc⟩ := List.mem_flatMap.1 h7
+        refine subtree_goal E hT hD d c (hm.2.2.2.2.1 c hc)
+          (fun x hx => h4 x (by rw [E2EM.mtoList_succ]; exact List.mem_flatMap.2 ⟨c, hc, hx⟩))
+          (fun id hid => h5 id ?_)
+          (fun l hl => h6 l (by rw [E2EM.mleaves_succ]; exact List.mem_flatMap.2 ⟨c, hc, hl⟩)) q hqc
+        rw [mslabs_succ, keys_cons']
+        apply List.mem_cons_of_mem
+        obtain ⟨v, hv⟩ := (mem_keys_iff _ id).1 hid
+        exact mem_keys_of_mem (List.mem_flatMap.2 ⟨c, hc, hv⟩)
+      exact key root htree hkv hids hnx hsub
+
+/-- THE SLABS AN INLINED MAP OWNS (its external collision-group slabs; the root slab is embedded in
+    the slab of the parent) meet the goal. -/
+theorem mapInl_goal {w : World} (E : Env w) {D : DigestFn 4} (hD : ∀ p, ∀ h ∈ D.dg p, h < 2 ^ 64)
+    (m : OMap 3) (ctr : Nat) (hinv : MapInvInl w.T D m ctr)
+    (hnd : (Cont.map m).treeIds.Nodup)
+    (hval : ∀ v ∈ m.toList.map (·.2), Good w v)
+    (hkey : ∀ kv ∈ m.toList, validElem ⟨kv.1.size, .val kv.1.pay⟩) :
+    ∀ p ∈ (Cont.map m).slabs, SlabGoal w p.1 p.2 := by
+  obtain ⟨s, ty, cnt, seed, rfl, _, hi, _, hel, _⟩ := hinv
+  have hkv : ∀ p ∈ HkeyElems.toList (MElems.ops 3) s.elems, KVGood w p :=
+    fun p hp => ⟨hval p.2 (List.mem_map.2 ⟨p, hp, rfl⟩), hkey p hp⟩
+  rw [Cont.treeIds_map] at hnd
+  have hnd' : (AList.keys (MTree.slabs 0 s)).Nodup := hnd
+  rw [mslabs_zero, keys_cons'] at hnd'
+  have hnotin := (List.nodup_cons.1 hnd').1
+  have hinl : (Cont.map ⟨0, s, ty, cnt, seed⟩).isInlined = true := hi
+  intro p hp
+  rw [Cont.slabs_of_inlined hinl] at hp
+  have hts : (Cont.map ⟨0, s, ty, cnt, seed⟩).treeSlabs.tail = s.groupSlabs.map (fun p =>
+      (p.1, WSlab.map p.2 (if p.1 = s.hdr.id then some (ty, cnt, seed) else none))) := by
+    simp only [Cont.treeSlabs]
+    rw [show MTree.slabs 0 s = (s.hdr.id, MSlabView.data s) :: s.groupSlabs from rfl]
+    rfl
+  rw [hts] at hp
+  obtain ⟨q, hq, rfl⟩ := List.mem_map.1 hp
+  have hne : ¬ q.1 = s.hdr.id := by
+    intro he
+    have hmem := mem_keys_of_mem hq
+    rw [he] at hmem
+    exact hnotin hmem
+  simp only [if_neg hne]
+  exact groups_goal E hD s hel hkv q hq
+
 end Atree.WC
